@@ -60,7 +60,7 @@ TagOf(s0, a, kind) ==
        [] a.a = "testreq" -> IF IsLogged(sp) THEN "C14" ELSE "C16"
        [] a.a = "hbt" -> "C16"
        [] a.a = "resend" -> IF IsLogged(sp) THEN "C10" ELSE "C16"
-       [] a.a = "run" -> "C06"
+       [] a.a \in {"run", "relogon"} -> "C06"
        [] a.a = "send" -> "C05"
        [] OTHER -> IF ~s0.everLogged THEN "C07" ELSE "C06"
 
@@ -136,7 +136,9 @@ AdvWalk(x, r, j, td, tEnd) ==
          m == MissedBefore(x, t)
          \* stop deadline reached before this output
          x0 == IF x.stopAt >= 0 /\ x.stopAt <= t THEN StopDeadline(x, x.stopAt) ELSE x
-     IN IF m # "none" THEN Bad(x, MissTag(m), r, m \o " not sent in time", [before |-> t, lastOut |-> x.lastOut, lastIn |-> x.lastIn, hb |-> x.hb, st |-> x.st])
+     IN IF ~x.everLogged /\ o.ty \notin Allowed07 THEN
+             Bad(x, "C07", r, "message other than Logon/Logout/Reject sent before logon", [action |-> "advance", outs |-> BriefSeq(r.outs), at |-> t])
+        ELSE IF m # "none" THEN Bad(x, MissTag(m), r, m \o " not sent in time", [before |-> t, lastOut |-> x.lastOut, lastIn |-> x.lastIn, hb |-> x.hb, st |-> x.st])
         ELSE IF o.ty = "0" /\ o.trid = <<>> THEN
                IF HeartbeatEnabled(x0, t) THEN
                     LET x1 == TimerHeartbeat(x0, t)
@@ -175,12 +177,16 @@ StepResult(s0, r) ==
          lenient == a.a = "resend" /\ Valid(a) /\ IsLogged(sp)
                       /\ ~ResendRangeOk(sp, a.b, IF a.e = 0 THEN sp.outSeq ELSE a.e)
          x1raw == CASE a.a = "run" -> Run(x0)
+                    [] a.a = "relogon" -> Relogon(x0)
                     [] a.a = "send" -> AppSend(x0)
                     [] a.a = "llogout" -> LocalLogout(x0)
                     [] a.a = "stop" -> Stop(x0)
                     [] lenient -> IF LenientResendOk(sp, a, r.outs) THEN AppendAll(sp, r.outs) ELSE sp
                     [] OTHER -> Recv(x0, a)
-         x1 == x1raw
+         \* an inbound message delivered while the local call's own message was still inside the send path: the call's
+         \* state change and message come first, then the inbound message is processed (sequential composition)
+         midAct == [a EXCEPT !.a = a.mid, !.seq = a.midSeq, !.id = <<77>>]
+         x1 == IF a.mid # "" /\ a.a \in {"send", "llogout"} THEN Recv(x1raw, midAct) ELSE x1raw
          exp == SubSeq(x1.sent, Len(x0.sent) + 1, Len(x1.sent))
          gapOnly == a.a = "logon" /\ Len(exp) = Len(r.outs) /\ Len(exp) >= 1
                       /\ MatchSeq(SubSeq(exp, 1, Len(exp) - 1), SubSeq(r.outs, 1, Len(exp) - 1))
